@@ -251,6 +251,11 @@ func (s *monoSess) randomTextSetup() {
 	}
 }
 
+func init() {
+	registerExecutor("mono", &monoExec{})
+	registerFamily("c16", func(r *Rng, n int, tier string) { genC16(r, n, tier == "thorough") })
+}
+
 // C16: sessions of random operation sequences on canvases 0..64 x 0..64
 func genC16(r *Rng, sessions int, allSizes bool) {
 	sizes := [][2]int{}
